@@ -119,6 +119,18 @@ func (e *Engine) eval(st *State, x ast.Expr) Value {
 			return v
 		}
 	}
+	// inside one contract clause, textually identical calls of program functions are evaluated once per state
+	if e.specMode > 0 && e.quant == 0 {
+		if call, ok := x.(*ast.CallExpr); ok && e.clauseMemo != nil && e.hoistable(call) && !e.isUniverseCall(call) {
+			key := fmt.Sprintf("%p|%s", st, e.slug(call))
+			if v, ok := e.clauseMemo[key]; ok {
+				return v
+			}
+			v := e.evalCall(st, call)
+			e.clauseMemo[key] = v
+			return v
+		}
+	}
 	if cv := e.constOf(x); cv != nil {
 		return e.constValue(st, cv, e.typeOf(x))
 	}
@@ -647,6 +659,7 @@ func (e *Engine) strConcat(st *State, a, b StrV) Value {
 	r := app(SInt, "sconcat", a.t, b.t)
 	if e.quant == 0 {
 		r = e.name("cat", r)
+		e.strIDs = append(e.strIDs, r)
 		e.assume(st, Eq(e.slen(r), Add(e.slen(a.t), e.slen(b.t))), "string concatenation length")
 		e.nsym++
 		v := fmt.Sprintf("k!%d", e.nsym)
@@ -776,6 +789,7 @@ func (e *Engine) elemRef(st *State, sv SliceV, i T, elem types.Type) T {
 	if e.quant == 0 {
 		r = e.name("elt", r)
 		e.assume(st, And(Gt(r, I(0)), Le(Add(r, I(int64(e.cells(elem)))), st.alloc)), "typed memory: boxed slice element is allocated")
+		e.oldStaysOld(st, sv.blk, true, r)
 	}
 	return r
 }
@@ -871,6 +885,7 @@ func (e *Engine) loadElem(st *State, blk, idx T, elem types.Type) Value {
 		if e.quant == 0 {
 			r = e.name("elt", r)
 			e.assume(st, And(Gt(r, I(0)), Le(Add(r, I(int64(e.cells(elem)))), st.alloc)), "typed memory: boxed element is allocated")
+			e.oldStaysOld(st, blk, true, r)
 		}
 		if e.specMode > 0 {
 			if _, ok := under(elem).(*types.Array); ok {
@@ -897,6 +912,7 @@ func (e *Engine) loadElem(st *State, blk, idx T, elem types.Type) Value {
 		if e.quant == 0 {
 			c = e.name("ldp", c)
 			e.assume(st, And(Ge(c, I(0)), Lt(c, st.alloc)), "typed memory: reference is allocated")
+			e.oldStaysOld(st, blk, true, c)
 		}
 		return RefV{c}
 	}
@@ -916,7 +932,7 @@ func (e *Engine) storeElem(st *State, blk, idx T, elem types.Type, v Value) {
 	default:
 		c = e.asInt(v, nil)
 	}
-	st.Mem = e.name("Mem", Sto(st.Mem, blk, Sto(Sel(st.Mem, blk), idx, c)))
+	e.memWrite(st, blk, Sto(Sel(st.Mem, blk), idx, c), "an element")
 }
 
 func (e *Engine) evalSliceExpr(st *State, n *ast.SliceExpr) Value {
@@ -1196,6 +1212,15 @@ func heapsDiffer(a, b *State) bool {
 	}
 	for k, v := range a.H {
 		if w, ok := b.H[k]; !ok || w.s != v.s {
+			return true
+		}
+	}
+	return false
+}
+
+func (e *Engine) isUniverseCall(call *ast.CallExpr) bool {
+	if id, ok := call.Fun.(*ast.Ident); ok {
+		if f, ok := e.pkg.info.Uses[id].(*types.Func); ok && f.Pkg() == nil {
 			return true
 		}
 	}
